@@ -273,3 +273,20 @@ def run(F, S, R, tier):
     R.guard("sibling/stage-map", stage)
     import common as _common
     _common.effects(R, F, ['pool'])
+
+    # whatever finalize reports as dropped (expired from the window or detached) is handed to the pool on EVERY tip change, not only on a reorg
+    # (round-2 seed C12-seed3 stored it in the fork only when blocks were detached: proposals that merely expire then stay Proposed in the pool)
+    def dropped_ids_always():
+        vb = F.need("ckb_chain::verify::ConsumeUnverifiedBlockProcessor::verify_block")
+        R.fn(vb)
+        fin = vb.calls_to(r"ProposalTable::finalize$")
+        ws = [i for i, blk in enumerate(vb.blocks) for st in blk["s"] if st[0][1] and str(st[0][1][-1]).endswith("ForkChanges.detached_proposal_id")]
+        ns = vb.calls_to(r"Shared::new_snapshot$")
+        R.sites += len(fin) + len(ws) + len(ns)
+        if not fin or not ws or not ns:
+            R.bad("order/dropped-ids-always/anchor-lost", "finalize / the detached_proposal_id assignment / new_snapshot not found in verify_block", [vb.where()])
+        elif any(vb.dominates(fin[0].bb, w) and vb.dominates(w, ns[0].bb) for w in ws):
+            R.ok("order/dropped-ids-always", "the dropped ids are recorded for the pool on every path from finalize to the new snapshot", [vb.where(ws[0])])
+        else:
+            R.bad("order/dropped-ids-always", "the ids finalize reports as dropped are recorded for the pool only on some paths (a condition was put around the assignment)", [vb.where(ws[0])])
+    R.guard("order/dropped-ids-always", dropped_ids_always)
